@@ -141,11 +141,16 @@ func intInfo(t types.Type) (w int, signed bool) {
 
 // leavesOf enumerates the leaves of a Go type.
 func (x *Exec) leavesOf(t types.Type) []leaf {
+	if l, ok := x.leafByType[t]; ok {
+		return l
+	}
 	key := types.TypeString(t, nil)
 	if l, ok := x.leafCache[key]; ok {
+		x.leafByType[t] = l
 		return l
 	}
 	x.leafCache[key] = nil // recursion guard
+	defer func() { x.leafByType[t] = x.leafCache[key] }()
 	var out []leaf
 	switch kindOf(t) {
 	case kBool:
